@@ -21,6 +21,8 @@ def _strategy():
     def build(draw):
         nst = draw(st.integers(1, 2))
         addrs = draw(st.lists(st.integers(0, 120), min_size=8, max_size=8, unique=True))
+        # boundary addresses for the requester (0 is a legal address) - responders prefer odd addresses, so even ones are free
+        req_addr = draw(st.sampled_from([None, None, 0x00, 0x02, 0x80, 0xF8, 0xFC]))
         ai = 0
         stacks = []
         for i in range(nst):
@@ -29,6 +31,8 @@ def _strategy():
                 stt = draw(st.sampled_from(STATES))
                 a = addrs[ai] * 2 + 1          # odd addresses: 'moved' CAs walk to the even one above, which nobody prefers
                 ai += 1
+                if i == 0 and k == 0 and stt in ("bypass", "claimed", "none"):
+                    a = draw(st.sampled_from([a, a, 0x01, 0xFD, 0x7F, 0xF7]))     # boundary addresses of the ranges
                 if stt == "wait_veto":
                     a = 129 + (a % 100)
                     a |= 1
@@ -36,7 +40,7 @@ def _strategy():
             stacks.append(cas)
         return {"stacks": stacks,
                 "req_has_addr": draw(st.sampled_from([True, True, False])),
-                "req_addr": addrs[7] * 2 + 1,
+                "req_addr": req_addr if req_addr is not None else addrs[7] * 2 + 1,
                 "pgns": [0xEE00] + draw(st.lists(st.one_of(st.sampled_from(PGN_B), st.integers(0, 0x3FFFF)), min_size=2, max_size=3)),
                 "lat": draw(st.lists(st.sampled_from(simbus.LATENCY_GRID[1:6]), min_size=1, max_size=2))}
     return build()
